@@ -1,15 +1,26 @@
-"""C03 -- shock response spectrum (partial claim, DESIGN.md section 3)."""
+"""C03 -- shock response spectrum (partial claim, DESIGN.md section 3).
+
+Every rule decides on *values*: the anchored functions of pyyeti/srs.py (the six coefficient functions, `_process_ic`, `srs`, the
+`_dosrs*` workers, `vrs`, the peak selectors) are evaluated on symbols by `c03_sem.Ev3` - module-level helpers followed, module-level
+constants folded, option strings seeded as values, undecided tests explored both ways - and the values that reach `lfilter`, the peak
+function, the response-history stores, the allocations and the `return` are compared with the expected expressions.  No rule looks at
+the spelling of a local name, at statement order, at which arm of an `if` holds what, or at whether a block sits in a helper."""
 from __future__ import annotations
 
 import ast
 
 from . import e2_formula as F
 from .core import AnchorError, Unsupported
-from .e1_srcmodel import dotted, walk_no_nested, find_nodes, utext
-from .e2_eval import Evaluator, is_unknown, need
+from .e1_srcmodel import dotted
+from .e2_eval import DictValue, is_unknown, need
+from .sem import unfn
+from . import c03_sem as X
+from .c03_sem import S, TRUE, FALSE, NONE, Sem3, explore, str_of, sym_of, rows_of
 
 SRS = "pyyeti/srs.py"
 STYPES = ("absacce", "relacce", "reldisp", "relvelo", "pvelo", "pacce")
+ICS = ("zero", "shift", "mshift", "steady")
+TIMES = ("primary", "total", "residual")
 
 
 def reference_filters():
@@ -59,44 +70,91 @@ def reference_filters():
     }
 
 
-def _is_wn_zero_test(test):
-    """wn == 0  -> 'eq',  wn != 0 -> 'ne', else None"""
-    if isinstance(test, ast.Compare) and len(test.ops) == 1 and isinstance(test.left, ast.Name) \
-            and isinstance(test.comparators[0], ast.Constant) and test.comparators[0].value == 0:
-        if isinstance(test.ops[0], ast.Eq):
-            return "eq"
-        if isinstance(test.ops[0], ast.NotEq):
-            return "ne"
+# ---------------------------------------------------------------------------------------------------------------- coefficient functions
+def _coef_hook(node, ev):
+    """np.zeros(3) / np.ones(3) in a coefficient function: a vector of that many zeros / ones"""
+    d = dotted(node.func) or ""
+    if d in ("np.zeros", "numpy.zeros", "np.ones", "numpy.ones", "np.zeros_like", "np.ones_like") and node.args:
+        n = ev.ev(node.args[0])
+        one = F.const(1 if "ones" in d else 0)
+        if isinstance(n, tuple) and d.endswith("_like"):
+            return tuple(one for _ in n)
+        if not is_unknown(n) and not isinstance(n, (tuple, DictValue)) and n.is_const() and n.const_value().denominator == 1 and 1 <= n.const_value() <= 8:
+            return tuple(one for _ in range(int(n.const_value())))
+        if isinstance(n, tuple) and len(n) == 1 and not is_unknown(n[0]) and n[0].is_const() and 1 <= n[0].const_value() <= 8:
+            return tuple(one for _ in range(int(n[0].const_value())))
+    return NotImplemented
+
+
+def _wn_general(test, ev):
+    """general regime of a coefficient function (wn a symbol): `c * wn == 0` is false, whatever the operands are called"""
+    if isinstance(test, ast.Compare) and len(test.ops) == 1 and isinstance(test.ops[0], (ast.Eq, ast.NotEq)):
+        a, b = ev.ev(test.left), ev.ev(test.comparators[0])
+        if is_unknown(a) or is_unknown(b) or isinstance(a, (tuple, DictValue)) or isinstance(b, (tuple, DictValue)):
+            return None
+        r = (need(a) - need(b)) / F.sym("wn")
+        if r.is_const() and not r.is_zero():
+            return isinstance(test.ops[0], ast.NotEq)
     return None
 
 
+def _vector(S_, v, what):
+    if isinstance(v, tuple):
+        return v
+    n = sym_of(v) if not is_unknown(v) and not isinstance(v, DictValue) else None
+    if n is not None and n in S_.ev.buffers:
+        # an array filled element by element
+        got = {}
+        for _nm, ix, val, _st in S_.cells(n):
+            if is_unknown(ix) or not need(ix).is_const() or need(ix).const_value().denominator != 1:
+                raise Unsupported(f"{what}: element store with a non-constant index")
+            got[int(need(ix).const_value())] = val
+        if got and sorted(got) == list(range(len(got))):
+            return tuple(got[k] for k in range(len(got)))
+    raise Unsupported(f"{what}: return value is not (b, a) arrays")
+
+
+_FILTER_CACHE = {}
+
+
 def extract_filter(ctx, stype, zero):
+    key = (id(ctx), stype, zero)
+    if key in _FILTER_CACHE:
+        r = _FILTER_CACHE[key]
+        if isinstance(r, Exception):
+            raise r
+        return r
+    try:
+        r = _extract_filter(ctx, stype, zero)
+    except (Unsupported, AnchorError) as e:
+        _FILTER_CACHE[key] = e
+        raise
+    _FILTER_CACHE[key] = r
+    return r
+
+
+def _extract_filter(ctx, stype, zero):
     fn = ctx.src.func(SRS, stype)
-    args = [a.arg for a in fn.args.args]
-    if len(args) < 3:
+    params = [a.arg for a in fn.args.posonlyargs + fn.args.args]
+    if len(params) < 3:
         raise AnchorError(f"{stype}: expected (Q, dT, wn) parameters")
     zeta = F.sym("zeta")
-    env = {args[0]: 1 / (2 * zeta), args[1]: F.sym("dT"), args[2]: F.const(0) if zero else F.sym("wn")}
-    wn_name = args[2]
-
-    def cond(test, ev):
-        k = _is_wn_zero_test(test)
-        if k is not None and test.left.id == wn_name:
-            return (k == "eq") == zero
-        return None
-
-    ev = Evaluator(env=env, cond=cond, src=ctx.src)
-    ev.run(fn.body)
-    if not ev.returns:
+    env = {params[0]: 1 / (2 * zeta), params[1]: F.sym("dT"), params[2]: F.const(0) if zero else F.sym("wn")}
+    S_ = Sem3(ctx, fn, SRS, cond=None if zero else _wn_general, env=env, hooks=(_coef_hook,))
+    if not S_.ev.returns:
         raise AnchorError(f"{stype}: no return")
-    ret = ev.returns[-1][0]
-    if not (isinstance(ret, tuple) and len(ret) == 2 and all(isinstance(x, tuple) for x in ret)):
+    ret = S_.ret()
+    if is_unknown(ret):
+        raise Unsupported(f"{stype}: return value: {ret.why}")
+    if not (isinstance(ret, tuple) and len(ret) == 2):
         raise Unsupported(f"{stype}: return value is not (b, a) arrays")
-    b, a = ret
-    for i, x in enumerate(b):
-        need(x, f"{stype} b[{i}]")
-    for i, x in enumerate(a):
-        need(x, f"{stype} a[{i}]")
+    b, a = (_vector(S_, x, stype) for x in ret)
+    for nm, vec in (("b", b), ("a", a)):
+        for i, x in enumerate(vec):
+            need(x, f"{stype} {nm}[{i}]")
+            un = sorted(n for n in X.fn_names(x) if n.startswith(("call:", "attr:", "idx", "apply")))
+            if un:
+                raise Unsupported(f"{stype} {nm}[{i}] uses operations this rule does not model: {un}")
     return b, a, fn
 
 
@@ -171,75 +229,300 @@ def r2_zero_limits(ctx):
         ctx.check(ok, f"{st}: wn==0 branch is normalised (a[0] == 1)", fn, None if ok else repr(a0[0]), nontrivial=False)
 
 
-def _stype_cond(stype):
-    def cond(test, ev):
-        return _eval_stype_test(test, stype)
-    return cond
+# ---------------------------------------------------------------------------------------------------------------- srs() on symbols
+def _opaque_helpers(ctx):
+    """module-level helpers that stay opaque in the evaluation of srs(): those that allocate shared memory (their result stands for the array
+    they are given) and those that ask the machine for its CPU count (nothing the property speaks about depends on the answer)"""
+    cache = ctx.__dict__.setdefault("_c03_opaque", {})
+    if "v" not in cache:
+        out = set()
+        m = ctx.src.mod(SRS)
+        for q, f in m.funcs.items():
+            if "." in q or "#" in q:
+                continue
+            for n in ast.walk(f):
+                if isinstance(n, ast.Call):
+                    last = (dotted(n.func) or "").split(".")[-1]
+                    if last in ("Array", "RawArray", "cpu_count", "SharedMemory"):
+                        out.add(q)
+        # transitive: a helper that only wraps one of those
+        changed = True
+        while changed:
+            changed = False
+            for q, f in m.funcs.items():
+                if "." in q or "#" in q or q in out or q == "srs":
+                    continue
+                if any(isinstance(n, ast.Call) and isinstance(n.func, ast.Name) and n.func.id in out for n in ast.walk(f)) and len(f.body) <= 12 \
+                        and not any(isinstance(n, ast.Call) and (dotted(n.func) or "").split(".")[-1] == "lfilter" for n in ast.walk(f)):
+                    out.add(q)
+                    changed = True
+        cache["v"] = frozenset(out)
+    return cache["v"]
 
 
-def _eval_stype_test(test, stype):
-    if isinstance(test, ast.Compare) and len(test.ops) == 1 and isinstance(test.left, ast.Name) \
-            and test.left.id == "stype" and isinstance(test.comparators[0], ast.Constant):
-        eq = test.comparators[0].value == stype
-        if isinstance(test.ops[0], ast.Eq):
-            return eq
-        if isinstance(test.ops[0], ast.NotEq):
-            return not eq
-    if isinstance(test, ast.BoolOp):
-        vals = [_eval_stype_test(v, stype) for v in test.values]
-        if any(v is None for v in vals):
+def _lfilter_hook(records):
+    def hook(node, ev):
+        d = dotted(node.func) or ""
+        if d.split(".")[-1] != "lfilter":
+            return NotImplemented
+        kw = {k.arg: ev.ev(k.value) for k in node.keywords if k.arg is not None}
+        pos = [ev.ev(a) for a in node.args]
+        names = ["b", "a", "x", "axis"]
+        got = dict(zip(names, pos))
+        got.update({k: v for k, v in kw.items() if k in names})
+        extra = [k for k in kw if k not in names]
+        x = got.get("x")
+        if x is None or is_unknown(x) or isinstance(x, (tuple, DictValue)):
+            s = F.sym("<lfilter%d>" % len(records))
+        else:
+            s = F.fn("lfilt", F.const(len(records)), need(x))       # the filtered signal: as many rows as x
+        records.append({"sym": s, "b": got.get("b"), "a": got.get("a"), "x": got.get("x"), "axis": got.get("axis"), "node": node, "extra": extra})
+        return s
+    return hook
+
+
+def _srs_fixed(parallel, params):
+    """what the regime fixes beyond the seeded option strings: a 2-D signal array, `sr` given, and which of the serial / parallel code paths runs"""
+    def fixed(test, ev):
+        v = ev.ev(test)
+        if v is None or is_unknown(v) or isinstance(v, (tuple, DictValue)):
             return None
-        return any(vals) if isinstance(test.op, ast.Or) else all(vals)
+        u = unfn(v)
+        if u and u[0] in ("cmp:Eq", "cmp:NotEq", "cmp:Is", "cmp:IsNot") and len(u[1]) == 2 and not any(isinstance(z, str) for z in u[1]):
+            a, b = u[1]
+            eq = u[0] in ("cmp:Eq", "cmp:Is")
+            for x, y in ((a, b), (b, a)):
+                ux = unfn(x)
+                if ux and ux[0] == "attr:ndim" and y.is_const() and y.const_value() == 1:
+                    return not eq
+                if sym_of(y) == "None" and sym_of(x) in params:
+                    return not eq
+                sy = str_of(y)
+                if sy in ("yes", "no", "auto") and str_of(x) is None:
+                    return (parallel == sy) == eq
+        return None
+    return fixed
+
+
+def _peak_function(ctx, key):
+    """name of the module-level function `_process_inputs` selects for the peak name `key` (None when it does not resolve to one)"""
+    cache = ctx.__dict__.setdefault("_c03_peak", {})
+    if key not in cache:
+        pi = ctx.src.func(SRS, "_process_inputs")
+        pp = [a.arg for a in pi.args.posonlyargs + pi.args.args]
+        if len(pp) != 4:
+            raise AnchorError("_process_inputs(stype, peak, rolloff, time)")
+        S_ = Sem3(ctx, pi, SRS, env={pp[0]: S("absacce"), pp[1]: S(key), pp[2]: S("none"), pp[3]: S("primary")})
+        ret = S_.ret()
+        v = ret[1] if isinstance(ret, tuple) and len(ret) == 4 else None
+        name = sym_of(v) if v is not None and not is_unknown(v) and not isinstance(v, (tuple, DictValue)) else None
+        cache[key] = (name if name is not None and name in ctx.src.mod(SRS).funcs else None, v)
+    return cache[key][0]
+
+
+def srs_regime(ctx, st="absacce", ic="zero", time="primary", getresp=False, parallel="no", eqsine=False, rolloff="none", limit=48):
+    """evaluate srs() once per explored path of one regime of its options; yields (Sem3, lfilter records)"""
+    fn = ctx.src.func(SRS, "srs")
+    a = fn.args
+    params = [x.arg for x in a.posonlyargs + a.args + a.kwonlyargs]
+    opts = {"stype": S(st), "ic": S(ic), "time": S(time), "getresp": TRUE if getresp else FALSE, "parallel": S(parallel),
+            "eqsine": TRUE if eqsine else FALSE, "rolloff": S(rolloff), "peak": S("abs")}
+    for k in list(opts) + ["sig", "sr", "freq", "Q"]:
+        if k not in params:
+            raise AnchorError(f"srs: parameter `{k}` of the documented signature")
+    records = []
+    # the coefficient functions (R1 / R2) and the peak function (R8) are verified on their own: here they stay symbolic
+    keep = set(_opaque_helpers(ctx)) | set(STYPES) | {_peak_function(ctx, "abs")}
+    for _dec, S_ in explore(ctx, fn, SRS, fixed=_srs_fixed(parallel, set(params)), limit=limit, env=opts, hooks=(_lfilter_hook(records),),
+                            exclude=keep):
+        recs = list(records)
+        del records[:]
+        yield S_, recs
+
+
+def _coef_call(rec):
+    """the call that produced the (b, a) given to lfilter: {func, Q, dT, wn} when b = C[0], a = C[1], C = func(Q, dT, wn)"""
+    b, a = rec.get("b"), rec.get("a")
+    if b is None or a is None or is_unknown(b) or is_unknown(a) or isinstance(b, (tuple, DictValue)) or isinstance(a, (tuple, DictValue)):
+        return None
+    ub, ua = unfn(b), unfn(a)
+    if not (ub and ua and ub[0] == "idx" and ua[0] == "idx" and len(ub[1]) == 2 and len(ua[1]) == 2):
+        return None
+    if isinstance(ub[1][1], str) or isinstance(ua[1][1], str) or not ub[1][0].equals(ua[1][0]):
+        return None
+    if not (ub[1][1].equals(0) and ua[1][1].equals(1)):
+        return {"swapped": True}
+    c = unfn(ub[1][0])
+    if c and c[0] == "apply" and len(c[1]) == 4 and not any(isinstance(z, str) for z in c[1]):
+        return {"func": c[1][0], "Q": c[1][1], "dT": c[1][2], "wn": c[1][3]}
     return None
+
+
+def _main_filter(recs):
+    """the lfilter calls whose coefficients come from a coefficient function (a rolloff pre-filter has constant coefficients)"""
+    main = [r for r in recs if _coef_call(r) is not None]
+    return main if main else recs
+
+
+def _uses(S_, rec):
+    """values stored anywhere (arrays of the function, arrays reached through helpers or dictionaries) that depend on the filter output"""
+    out, seen = [], set()
+    for tag, ix, val, st in [(c[0], c[1], c[2], c[3]) for c in S_.ev.cells] + [(d[0], d[1], d[2], d[3]) for d in S_.ev.deep]:
+        if val is None or is_unknown(val) or isinstance(val, (tuple, DictValue)) or not X.contains(val, rec["sym"]):
+            continue
+        k = (id(st), repr(val))
+        if k in seen:
+            continue
+        seen.add(k)
+        out.append((val, ix, st))
+    return out
+
+
+def _window(val):
+    """stored value -> (kind, history, start): 'peak' for f(history[start:]), 'hist' for history[start:]"""
+    kind = "hist"
+    u = unfn(val)
+    if u and (u[0] == "apply" and len(u[1]) == 2 or u[0].startswith("call:") and len(u[1]) == 1) and not isinstance(u[1][-1], str):
+        kind = "peak"
+        val = u[1][-1]
+        u = unfn(val)
+    if u and u[0] == "idx" and len(u[1]) == 2 and not isinstance(u[1][1], str):
+        sl = unfn(u[1][1])
+        if sl and sl[0] == "slice" and len(sl[1]) == 3 and sym_of(sl[1][1]) == "None" and sym_of(sl[1][2]) == "None":
+            start = F.const(0) if sym_of(sl[1][0]) == "None" else sl[1][0]
+            return kind, u[1][0], start
+        return kind, None, None
+    if u is None or not u[0].startswith(("idx", "apply", "call:")):
+        return kind, val, F.const(0)
+    return kind, None, None
+
+
+WANT = {"absacce": F.const(1), "relacce": F.const(0), "relvelo": F.const(0),
+        "reldisp": -1 / (F.sym("wn") ** 2), "pvelo": -1 / F.sym("wn"), "pacce": F.const(-1)}
 
 
 def _process_ic_steady(ctx, stype):
     fn = ctx.src.func(SRS, "_process_ic")
-    s1 = F.sym("s1")
-
-    def cond(test, ev):
-        if isinstance(test, ast.Compare) and isinstance(test.left, ast.Name) and test.left.id == "ic" \
-                and isinstance(test.comparators[0], ast.Constant) and isinstance(test.ops[0], ast.Eq):
-            return test.comparators[0].value == "steady"
-        return _eval_stype_test(test, stype)
-
-    def sub(node, ev):
-        # sig[0] -> first sample
-        if ast.unparse(node) == "sig[0]":
-            return s1
-        return NotImplemented
-
-    def call(node, ev):
-        return NotImplemented
-
-    ev = Evaluator(env={"sig": F.sym("sig"), "None": None}, cond=cond, src=ctx.src, subscript=sub)
-    # None constants: evaluator returns Unknown for `None`; track doic/icvals specially
-    ev.run(fn.body)
-    if not ev.returns:
+    params = [a.arg for a in fn.args.posonlyargs + fn.args.args]
+    if len(params) != 3:
+        raise AnchorError("_process_ic(sig, ic, stype)")
+    S_ = Sem3(ctx, fn, SRS, env={params[0]: F.sym("sig"), params[1]: S("steady"), params[2]: S(stype)})
+    if not S_.ev.returns:
         raise AnchorError("_process_ic: no return")
-    ret = ev.returns[-1][0]
+    ret = S_.ret()
     if not isinstance(ret, tuple) or len(ret) != 4:
         raise Unsupported("_process_ic must return (sig, s1, doic, icvals)")
     sig, s1v, doic, icvals = ret
     return sig, s1v, doic, icvals, fn
 
 
-def _addback_chains(fn):
-    """If-chains on stype whose arms augment a response history."""
-    out = []
-    for n in ast.walk(fn):
-        if isinstance(n, ast.If) and _eval_stype_test(n.test, "reldisp") is not None:
-            par = getattr(n, "_vparent", None)
-            if isinstance(par, ast.If) and n in par.orelse and _eval_stype_test(par.test, "reldisp") is not None:
-                continue  # elif arm of an outer chain
-            targets = [a for a in ast.walk(n) if isinstance(a, ast.AugAssign) and isinstance(a.target, ast.Name)]
-            if targets:
-                out.append((n, targets[0].target.id))
-    return out
+def _check_addback(ctx, st, site, S_, recs, where, want_func=None):
+    """every use of the filter output in this evaluation is  lfilter(...) + DCgain(wn used for the coefficients) * first sample"""
+    s1 = F.fn("idx", F.sym("sig"), F.const(0))
+    recs = _main_filter(recs)
+    if len(recs) != 1:
+        ctx.error(f"{st}: {site}: expected one lfilter call on the path, found {len(recs)}", where)
+        return
+    rec = recs[0]
+    cc = _coef_call(rec)
+    if cc is None:
+        ctx.error(f"{st}: {site}: the (b, a) given to lfilter are not the pair returned by one call coeffunc(Q, dT, wn)", rec["node"],
+                  {"b": repr(rec.get("b")), "a": repr(rec.get("a"))})
+        return
+    if cc.get("swapped"):
+        ctx.fail(f"{st}: {site}: lfilter receives the coefficient function's (b, a) in this order", rec["node"], {"b": repr(rec["b"]), "a": repr(rec["a"])},
+                 key=f"C03-R3|{st}|{site}")
+        return
+    uses = _uses(S_, rec)
+    wantv = WANT[st].subs({"wn": cc["wn"]}) * s1
+    bad, npeak = [], 0
+    for val, _ix, stn in uses:
+        kind, hist, _start = _window(val)
+        if hist is None:
+            ctx.error(f"{st}: {site}: a use of the filter output this rule does not model", stn, repr(val)[:300])
+            return
+        npeak += kind == "peak"
+        add = hist - rec["sym"]
+        if X.contains(add, rec["sym"]) or not add.equals(wantv):
+            bad.append({"use": kind, "line": getattr(stn, "lineno", None), "added": repr(add)[:300], "DCgain*s1": repr(wantv)})
+    if not npeak:
+        ctx.error(f"{st}: {site}: no peak taken from the filter output", where)
+        return
+    ctx.check(not bad, f"{st}: steady-state add-back in {site} equals DCgain*s1", rec["node"], bad or None, key=f"C03-R3|{st}|{site}")
+    if want_func is not None:
+        f = sym_of(cc["func"])
+        ok = f is not None and ctx.src.has_func(SRS, f) and ctx.src.mod(SRS).funcs[f] is want_func
+        ctx.check(ok, f"{st}: {site} filters with the coefficient function verified under that name", rec["node"], None if ok else repr(cc["func"]))
+
+
+def _strip_shared(v):
+    """value an initializer binds to a worker global -> the array that was shared (unary wrappers such as frombuffer(copy(V)) removed)"""
+    while True:
+        u = unfn(v) if (v is not None and not is_unknown(v) and not isinstance(v, (tuple, DictValue))) else None
+        if u and u[0].startswith("call:") and len(u[1]) == 1 and not isinstance(u[1][0], str):
+            v = u[1][0]
+            continue
+        return v
+
+
+def _parallel_setup(ctx, S_):
+    """from an evaluation of srs() on its parallel path: (worker FunctionDef, {worker global: value})"""
+    m = ctx.src.mod(SRS)
+    pool = [c for c in S_.ev.calls if c[0].split(".")[-1] == "Pool"]
+    disp = [c for c in S_.ev.calls if c[0].split(".")[-1] in ("imap_unordered", "imap", "map", "map_async", "starmap")]
+    if len(pool) != 1 or not disp:
+        raise Unsupported("parallel path: expected one Pool(...) and a map over it")
+    wname = sym_of(disp[0][1][0]) if disp[0][1] and not isinstance(disp[0][1][0], (tuple, DictValue)) and not is_unknown(disp[0][1][0]) else None
+    if wname is None or wname not in m.funcs:
+        raise Unsupported("parallel path: the mapped worker is not a module-level function")
+    kws = pool[0][2]
+    init, initargs = kws.get("initializer"), kws.get("initargs")
+    iname = sym_of(init) if init is not None and not is_unknown(init) and not isinstance(init, (tuple, DictValue)) else None
+    if iname is None or iname not in m.funcs or not isinstance(initargs, tuple):
+        raise Unsupported("parallel path: Pool(initializer=<module function>, initargs=<tuple>)")
+    ifn = m.funcs[iname]
+    ip = [a.arg for a in ifn.args.posonlyargs + ifn.args.args]
+    if len(ip) != len(initargs):
+        raise Unsupported("parallel path: initializer arity")
+    SI = Sem3(ctx, ifn, SRS, env=dict(zip(ip, initargs)), exclude=_opaque_helpers(ctx))
+    glob = {}
+    for n in ast.walk(ifn):
+        if isinstance(n, ast.Global):
+            for g in n.names:
+                v = SI.ev.env.get(g)
+                if v is None or is_unknown(v) or isinstance(v, (tuple, DictValue)):
+                    continue
+                v = _strip_shared(v)
+                u = unfn(v) if not is_unknown(v) and not isinstance(v, (tuple, DictValue)) else None
+                if u and u[0] == "tuple":
+                    continue            # an array created in shared memory from its shape: an output buffer
+                glob[g] = v
+    return m.funcs[wname], glob
+
+
+def _stype_fixed(st):
+    """inside a worker the response type arrives through the argument tuple: a comparison of a non-literal with response-type names is decided
+    for the type `st`"""
+    def fixed(test, ev):
+        if isinstance(test, ast.Compare) and len(test.ops) == 1:
+            a, b = ev.ev(test.left), ev.ev(test.comparators[0])
+            op = test.ops[0]
+            if isinstance(op, (ast.Eq, ast.NotEq)):
+                for x, y in ((a, b), (b, a)):
+                    if isinstance(x, (tuple, DictValue)) or isinstance(y, (tuple, DictValue)) or is_unknown(x) or is_unknown(y):
+                        continue
+                    if str_of(y) in STYPES and str_of(x) is None:
+                        return (str_of(y) == st) == isinstance(op, ast.Eq)
+            if isinstance(op, (ast.In, ast.NotIn)) and isinstance(b, tuple) and not isinstance(a, (tuple, DictValue)) and not is_unknown(a) \
+                    and str_of(a) is None and b and all((not is_unknown(z)) and (not isinstance(z, tuple)) and str_of(z) in STYPES for z in b):
+                return (st in [str_of(z) for z in b]) == isinstance(op, ast.In)
+        return None
+    return fixed
 
 
 def r3_dc_gain(ctx):
-    """steady-state add-back == DC gain of the filter times the removed offset s1"""
+    """steady-state add-back == DC gain of the filter times the removed offset s1, at the serial code site and in the worker each parallel
+    regime dispatches to"""
     gains = {}
     for st in STYPES:
         try:
@@ -250,21 +533,12 @@ def r3_dc_gain(ctx):
         sb = b[0] + b[1] + b[2]
         sa = a[0] + a[1] + a[2]
         gains[st] = sb / sa
-    want = {"absacce": F.const(1), "relacce": F.const(0), "relvelo": F.const(0),
-            "reldisp": -1 / (F.sym("wn") ** 2), "pvelo": -1 / F.sym("wn"), "pacce": F.const(-1)}
     for st, g in gains.items():
-        ok = g.equals(want[st])
+        ok = g.equals(WANT[st])
         ctx.check(ok, f"{st}: DC gain sum(b)/sum(a) of the coefficient function equals H(s=0)", ctx.src.func(SRS, st),
-                  None if ok else {"got": repr(g), "want": repr(want[st])})
-    s1 = F.sym("s1")
-    sites = []
-    for q in ("srs", "_dosrs_nohist_ic", "_dosrs_ic"):
-        fn = ctx.src.func(SRS, q)
-        ch = _addback_chains(fn)
-        if not ch:
-            raise AnchorError(f"{q}: no stype add-back chain found")
-        for c in ch:
-            sites.append((q, fn, c))
+                  None if ok else {"got": repr(g), "want": repr(WANT[st])})
+    s1 = F.fn("idx", F.sym("sig"), F.const(0))
+    srsfn = ctx.src.func(SRS, "srs")
     for st in STYPES:
         if st not in gains:
             continue
@@ -273,342 +547,550 @@ def r3_dc_gain(ctx):
         except Unsupported as e:
             ctx.error(f"{st}: _process_ic", None, str(e))
             continue
-        ok = (not is_unknown(sig)) and need(sig).equals(F.sym("sig") - s1)
+        ok = (not is_unknown(sig)) and not isinstance(sig, (tuple, DictValue)) and need(sig).equals(F.sym("sig") - s1)
         ctx.check(ok, f"{st}: ic='steady' removes the first sample from the signal", pfn, None if ok else repr(sig))
-        if is_unknown(doic):
+        dv = X.truth(doic)
+        if dv is None:
             ctx.error(f"{st}: doic", pfn, repr(doic))
             continue
-        doic_v = not need(doic).is_zero()
-        if want[st].is_zero():
-            ctx.check(not doic_v, f"{st}: zero DC gain => no steady-state add-back (doic == 0)", pfn)
-            continue
-        if not ctx.check(doic_v, f"{st}: non-zero DC gain => steady-state add-back enabled (doic != 0)", pfn):
-            continue
-        if is_unknown(icvals):
-            ctx.error(f"{st}: icvals", pfn, repr(icvals))
-            continue
-        for q, fn, (chain, tgt) in sites:
-            R = F.sym("R")
-            env = {tgt: R}
-            for nm in ("icvals", "ICVALS_"):
-                env[nm] = icvals
-            for nm in ("wn", "WN_"):
-                env[nm] = F.sym("wn")
-            ev = Evaluator(env=env, cond=_stype_cond(st), src=ctx.src)
-            ev.stmt(chain)
-            got = ev.env[tgt]
-            if is_unknown(got):
-                ctx.error(f"{st}: add-back in {q}", chain, repr(got))
-                continue
-            add = got - R
-            wantv = want[st] * s1
-            ok = add.equals(wantv)
-            ctx.check(ok, f"{st}: steady-state add-back in {q} equals DCgain*s1", chain,
-                      None if ok else {"added": repr(add), "DCgain*s1": repr(wantv)},
-                      key=f"C03-R3|{st}|{q}")
-
-
-def r4_windows(ctx):
-    """primary / residual window bookkeeping in srs()"""
-    fn = ctx.src.func(SRS, "srs")
-    body = fn.body
-    mdef = [s_ for s_ in body if isinstance(s_, ast.Assign) and ast.unparse(s_.targets[0]) == "M"]
-    if len(mdef) != 1 or ast.unparse(mdef[0].value) != "N":
-        raise AnchorError("srs: `M = N`")
-    # N (the number of samples of the possibly resampled signal) must not change between M = N and the zero padding
-    ptr_if = [s_ for s_ in body if isinstance(s_, ast.If) and ast.unparse(s_.test) == "ptr"]
-    if len(ptr_if) != 1:
-        raise AnchorError("srs: `if ptr:` padding block")
-    i_m, i_p = body.index(mdef[0]), body.index(ptr_if[0])
-    between = body[i_m + 1:i_p] if i_m < i_p else None
-    redef = []
-    if between is not None:
-        for s_ in between:
-            for n_ in ast.walk(s_):
-                if isinstance(n_, ast.Name) and isinstance(n_.ctx, ast.Store) and n_.id in ("N", "sig"):
-                    redef.append(ast.unparse(s_)[:60])
-    ok = between is not None and not redef
-    ctx.check(ok, "srs: M (end of the primary window) is taken from N after every resampling of the signal and before the zero padding", mdef[0],
-              None if ok else {"signal/N reassigned after M = N": redef} if between is not None else "M = N comes after the padding")
-    # later resampling sites all precede M = N
-    roll = [s_ for s_ in ast.walk(fn) if isinstance(s_, ast.Assign) and "rollfunc(" in ast.unparse(s_.value)]
-    ok = bool(roll) and all(r.lineno < mdef[0].lineno for r in roll)
-    ctx.check(ok, "srs: every rolloff resampling of the signal precedes M = N", mdef[0], [r.lineno for r in roll])
-    # the padding returns the new N
-    txt = ast.unparse(ptr_if[0]).replace(" ", "")
-    ctx.check("sig,N=_add_one_cycle(sig,freq,sr,H,ic,s1)" in txt, "srs: padding updates (sig, N) together", ptr_if[0])
-    # S = M for residual, else 0
-    sdef = [s_ for s_ in body if isinstance(s_, ast.Assign) and ast.unparse(s_.targets[0]) == "S"]
-    ok = len(sdef) == 1 and ast.unparse(sdef[0].value).replace(" ", "") == "Mifptr==2else0"
-    ctx.check(ok, "srs: the response is evaluated from S = M for the residual window and from 0 otherwise", sdef[0] if sdef else fn)
-    ptrs = ctx.src.func(SRS, "_process_inputs")
-    ok = "ptr={'primary':0,'total':1,'residual':2}" in utext(ptrs)
-    ctx.check(ok, "_process_inputs: primary -> 0, total -> 1, residual -> 2", ptrs)
-    # history allocation and time vector cover exactly N - S samples
-    gr = [s_ for s_ in body if isinstance(s_, ast.If) and ast.unparse(s_.test) == "getresp"]
-    if gr:
-        t = ast.unparse(gr[0]).replace(" ", "").replace("'", '"')
-        ok = 'ifptr==2:' in t and 'resp["t"]=np.arange(M,N)/sr' in t and '(N-M,H,LF)' in t and 'resp["t"]=np.arange(N)/sr' in t and '(N,H,LF)' in t
-        ctx.check(ok, "srs: history buffers and resp['t'] span N - M samples (residual) or N samples (primary/total)", gr[0])
-    else:
-        ctx.error("srs: getresp allocation block", fn)
-    # _add_one_cycle: zeros (minus s1 for steady) for one cycle of the lowest non-zero frequency
-    ac = ctx.src.func(SRS, "_add_one_cycle")
-    t = utext(ac).replace("'", '"')
-    ok = "nzeros=int(np.ceil(sr/minf))" in t and "minf=freq[pv].min()" in t and "pv=(freq>0).nonzero()[0]" in t
-    ctx.check(ok, "_add_one_cycle: pads ceil(sr / lowest non-zero frequency) samples", ac)
-    ok = 'ific=="steady":' in t and "sig=np.vstack((sig,z-s1))" in t and "sig=np.vstack((sig,z))" in t
-    ctx.check(ok, "_add_one_cycle: the padding is zero in the original signal's frame (z - s1 exactly when ic == 'steady' shifted the signal)", ac)
-
-
-def r6_vrs(ctx):
-    fn = ctx.src.func(SRS, "vrs")
-    loops = [n for n in walk_no_nested(fn) if isinstance(n, ast.For)]
-    loops = [l for l in loops if any(isinstance(x, ast.Name) and x.id == "p2z2" for x in ast.walk(l))]
-    if len(loops) < 2:
-        raise AnchorError("vrs: expected two transmissibility loops")
-    zeta_stmt = [n for n in walk_no_nested(fn) if isinstance(n, ast.Assign) and isinstance(n.targets[0], ast.Name)
-                 and n.targets[0].id == "zeta"]
-    if not zeta_stmt:
-        raise AnchorError("vrs: zeta definition")
-    forms = []
-    Q = F.sym("Q")
-    for lp in loops:
-        ev = Evaluator(env={"Q": Q, "freq": F.sym("f"), "fn": F.sym("fn"), "psdfull": F.sym("P"), "df": F.sym("df")},
-                       src=ctx.src)
-        ev.stmt(zeta_stmt[0])
-        # the loop target is (i, fn)
-        ev.run(lp.body)
-        t = ev.env.get("t")
-        # the quantity summed over frequency
-        summed = None
-        for n in ast.walk(lp):
-            if isinstance(n, ast.Call) and dotted(n.func) == "np.sum" and n.args:
-                summed = ev.ev(n.args[0])
-        if summed is None or is_unknown(summed):
-            ctx.error("vrs loop integrand", lp, repr(summed))
-            continue
-        forms.append((lp, summed))
-    p = F.sym("f") / F.sym("fn")
-    z = 1 / (2 * Q)
-    ref = (1 + (2 * z * p) ** 2) / ((1 - p * p) ** 2 + (2 * z * p) ** 2) * F.sym("P") * F.sym("df")
-    for lp, s in forms:
-        ok = s.equals(ref)
-        ctx.check(ok, "vrs: integrand equals |T|^2 * PSD * df with T the base-drive transmissibility "
-                      "(1+(2 zeta p)^2)/((1-p^2)^2+(2 zeta p)^2)", lp, None if ok else {"got": repr(s), "want": repr(ref)})
-    if len(forms) == 2:
-        ok = forms[0][1].equals(forms[1][1])
-        ctx.check(ok, "vrs: getresp and non-getresp loops integrate the same quantity", forms[1][0],
-                  None if ok else {"a": repr(forms[0][1]), "b": repr(forms[1][1])})
-    # Miles: z_miles^2 = (pi/2) f Q PSD in both arms
-    miles = [n for n in walk_no_nested(fn) if isinstance(n, ast.Assign) and isinstance(n.targets[0], ast.Name)
-             and n.targets[0].id == "z_miles" and isinstance(n.value, ast.Attribute)]
-    cnt = 0
-    for st in miles:
-        ev = Evaluator(env={"Q": Q, "freq": F.sym("f"), "Fn": F.sym("f"), "psdfull": F.sym("P"), "psdf2": F.sym("P")},
-                       src=ctx.src)
-        v = ev.ev(st.value)
-        if is_unknown(v):
-            ctx.error("vrs: Miles expression", st, repr(v))
-            continue
-        ok = (v * v).equals(F.sym("pi") / 2 * F.sym("f") * Q * F.sym("P"))
-        ctx.check(ok, "vrs: z_miles^2 == (pi/2) f Q PSD", st, None if ok else repr(v * v))
-        cnt += 1
-    if cnt < 2:
-        raise AnchorError("vrs: expected two Miles arms")
-
-
-def r7_eqsine(ctx):
-    """srs(): on every path to a return, the returned spectrum - and the returned response history when there is one - has been divided
-    by Q exactly once when eqsine is set and not at all otherwise (path enumeration over the option flags, not a pattern on the source)"""
-    from .paths import flag_paths
-    fn = ctx.src.func(SRS, "srs")
-
-    def divided(st):
-        """name of the array a statement divides by Q (`X /= Q`, `X = X / Q`), else None"""
-        if isinstance(st, ast.AugAssign) and isinstance(st.op, ast.Div) and utext(st.value) == "Q":
-            return utext(st.target)
-        if isinstance(st, ast.Assign) and len(st.targets) == 1 and isinstance(st.value, ast.BinOp) and isinstance(st.value.op, ast.Div) \
-                and utext(st.value.right) == "Q" and utext(st.value.left) == utext(st.targets[0]):
-            return utext(st.targets[0])
-        return None
-
-    nret = 0
-    seen = set()
-    for eq in (True, False):
+        if WANT[st].is_zero():
+            ctx.check(not dv, f"{st}: zero DC gain => no steady-state add-back (doic == 0)", pfn)
+        else:
+            ctx.check(dv, f"{st}: non-zero DC gain => steady-state add-back enabled (doic != 0)", pfn)
+        # serial code site
+        try:
+            n = 0
+            for S_, recs in srs_regime(ctx, st=st, ic="steady", time="primary", getresp=True, parallel="no"):
+                n += 1
+                _check_addback(ctx, st, "srs", S_, recs, srsfn, want_func=ctx.src.func(SRS, st))
+            if not n:
+                ctx.error(f"{st}: srs: no path evaluated", srsfn)
+        except Unsupported as e:
+            ctx.error(f"{st}: add-back in srs", srsfn, str(e))
+        # the worker of each parallel regime, with the globals its initializer binds
         for gr in (True, False):
-            def truth(test, eq=eq, gr=gr):
-                return {"eqsine": eq, "getresp": gr}.get(utext(test))
-            for trace, end in flag_paths(fn.body, truth, relevant=lambda st: divided(st) is not None):
-                if not isinstance(end, ast.Return) or end.value is None:
-                    continue
-                # loops are opaque in the trace: none of them may divide by Q
-                for st in trace:
-                    if isinstance(st, (ast.For, ast.While, ast.With, ast.Try)) and any(divided(x) for x in ast.walk(st) if isinstance(x, ast.stmt)):
-                        raise Unsupported("a division by Q inside a loop of srs()")
-                rv = [utext(e) for e in (end.value.elts if isinstance(end.value, ast.Tuple) else [end.value])]
-                if "SRSmax" not in rv:
-                    continue
-                nret += 1
-                sig = (eq, gr, id(end), tuple(id(st) for st in trace if divided(st)))
-                if sig in seen:
-                    continue
-                seen.add(sig)
-                cnt = {}
-                for st in trace:
-                    d = divided(st)
-                    if d:
-                        cnt[d] = cnt.get(d, 0) + 1
-                hist = [k for k in cnt if k.startswith("resp[") and "hist" in k]
-                want = 1 if eq else 0
-                ok = cnt.get("SRSmax", 0) == want
-                ctx.check(ok, f"srs (eqsine={eq}, getresp={gr}): the returned SRSmax is divided by Q {'once' if eq else 'not at all'} on the path to "
-                              f"`{ast.unparse(end)}`", end, None if ok else cnt)
-                if "resp" in rv:
-                    n = sum(cnt[k] for k in hist)
-                    ok = n == want
-                    ctx.check(ok, f"srs (eqsine={eq}, getresp={gr}): the returned response history is divided by Q {'once' if eq else 'not at all'}", end,
-                              None if ok else cnt)
-    ctx.check(nret >= 4, f"eqsine rule bound to {nret} (flags, return) paths", fn, nontrivial=False)
+            try:
+                for S_, _recs in srs_regime(ctx, st=st, ic="steady", time="primary", getresp=gr, parallel="yes"):
+                    wfn, glob = _parallel_setup(ctx, S_)
+                    recs = []
+                    W = Sem3(ctx, wfn, SRS, cond=_stype_fixed(st), env=glob, hooks=(_lfilter_hook(recs),), exclude=_opaque_helpers(ctx))
+                    _check_addback(ctx, st, wfn.name, W, recs, wfn)
+            except Unsupported as e:
+                ctx.error(f"{st}: add-back in the worker (getresp={gr})", srsfn, str(e))
 
 
-def _all_atoms(r):
-    """every atom of a formula, including those inside the arguments of opaque applications"""
-    out = set()
-    todo = [r]
-    while todo:
-        v = todo.pop()
-        for a in v.n.atoms() | v.d.atoms():
-            if a in out:
-                continue
-            out.add(a)
-            d = F.atom_desc(a)
-            if d[0] == "fn":
-                for k in d[2]:
-                    if not isinstance(k, str):
-                        todo.append(F.Rat(F._poly_from_key(k[1]), F._poly_from_key(k[2])))
-            elif d[0] in ("exp", "sin", "cos", "sqrt"):
-                todo.append(F.Rat(F._poly_from_key(d[1])))
+# ---------------------------------------------------------------------------------------------------------------- window bookkeeping
+def _resp_entries(S_, respval):
+    """{key: [values stored under that key, in order]} of the dictionary srs() returns"""
+    out = {}
+
+    def put(k, v):
+        out.setdefault(k, []).append(v)
+    if isinstance(respval, DictValue):
+        for k, v in respval.d.items():
+            put(k, v)
+        return out
+    n = sym_of(respval) if respval is not None and not is_unknown(respval) and not isinstance(respval, tuple) else None
+    if n is None:
+        raise Unsupported(f"returned response dictionary: {respval!r}")
+    init = S_.ev.env.get("<init:%s>" % n)
+    if isinstance(init, DictValue):
+        for k, v in init.d.items():
+            put(k, v)
+    for _nm, ix, val, _st in S_.cells(n):
+        k = str_of(ix) if not is_unknown(ix) else None
+        if k is not None:
+            put(k, val)
     return out
 
 
+def _alloc_rows(v):
+    """empty((r, H, LF)) -> r"""
+    u = unfn(v) if v is not None and not is_unknown(v) and not isinstance(v, (tuple, DictValue)) else None
+    if u and u[0] in ("empty", "zeros") and not isinstance(u[1][0], str):
+        sh = unfn(u[1][0])
+        if sh and sh[0] == "tuple" and len(sh[1]) == 3:
+            return sh[1][0]
+    return None
+
+
+def _arange(v, sr):
+    """np.arange(a, b) / sr  or  np.arange(n) / sr  -> (a, b)"""
+    if v is None or is_unknown(v) or isinstance(v, (tuple, DictValue)):
+        return None
+    u = unfn(need(v) * sr)
+    if u and u[0].split(".")[-1] == "arange" and all(not isinstance(z, str) for z in u[1]):
+        if len(u[1]) == 1:
+            return F.const(0), u[1][0]
+        if len(u[1]) == 2:
+            return u[1][0], u[1][1]
+    return None
+
+
+def _facts(ctx, S_, recs):
+    """what one serial path of srs() does with the signal: filtered array, its primary / appended parts, sample rate of the coefficients,
+    window starts, allocations"""
+    recs = _main_filter(recs)
+    if len(recs) != 1:
+        raise Unsupported(f"expected one lfilter call on the path, found {len(recs)}")
+    rec = recs[0]
+    x = rec["x"]
+    if x is None or is_unknown(x) or isinstance(x, (tuple, DictValue)):
+        raise Unsupported(f"signal given to lfilter: {x!r}")
+    ux = unfn(x)
+    padded = bool(ux and ux[0] == "vstack")
+    f = {"rec": rec, "x": x, "padded": padded, "prim": ux[1][0] if padded else x, "pad": ux[1][1] if padded else None}
+    cc = _coef_call(rec)
+    if cc is None or cc.get("swapped"):
+        raise Unsupported("the (b, a) given to lfilter are not the pair returned by one call coeffunc(Q, dT, wn)")
+    f["sr"] = 1 / cc["dT"]
+    starts = []
+    for val, _ix, stn in _uses(S_, rec):
+        kind, hist, start = _window(val)
+        if hist is None:
+            raise Unsupported(f"a use of the filter output this rule does not model: {val!r}"[:300])
+        starts.append((kind, start, stn))
+    f["starts"] = starts
+    f["rows"] = rows_of(x)
+    return f
+
+
+def r4_windows(ctx):
+    """primary / residual window bookkeeping of srs(), on values: which rows of which signal are filtered, where the evaluated window starts,
+    how long the returned history and time vector are, what is appended - for every time option x rolloff regime, and the frame of the
+    appended cycle for every response type x initial-condition rule"""
+    fn = ctx.src.func(SRS, "srs")
+    serial_rows = {}
+    for time in TIMES:
+        for rolloff in ("none", "lanczos", "prefilter"):
+            tag = f"srs (time={time}, rolloff={rolloff})"
+            try:
+                paths = []
+                for S_, recs in srs_regime(ctx, time=time, rolloff=rolloff, getresp=True):
+                    paths.append((S_, _facts(ctx, S_, recs)))
+            except Unsupported as e:
+                ctx.error(f"{tag}: evaluation", fn, str(e))
+                continue
+            if not paths:
+                ctx.error(f"{tag}: no path", fn)
+                continue
+            # (1) start of the evaluated window
+            bad = []
+            for S_, f in paths:
+                want = rows_of(f["prim"]) if time == "residual" else F.const(0)
+                if not any(k == "peak" for k, _s, _n in f["starts"]):
+                    bad.append("no peak taken from the filter output")
+                for kind, start, stn in f["starts"]:
+                    if not start.equals(want):
+                        bad.append({"use": kind, "line": getattr(stn, "lineno", None), "start": repr(start), "expected": repr(want)})
+            ctx.check(not bad, f"{tag}: the peak and the stored history are taken from "
+                      + ("the first row after the (possibly resampled) input signal" if time == "residual" else "row 0") + " of the filter output", fn, bad or None)
+            # (2) what is filtered
+            if time == "primary":
+                ok = not any(f["padded"] for _s, f in paths)
+                ctx.check(ok, f"{tag}: the signal is filtered as it is (nothing appended)", fn)
+            else:
+                ok = any(f["padded"] for _s, f in paths)
+                ctx.check(ok, f"{tag}: a cycle of the lowest non-zero frequency is appended to the signal before filtering", fn)
+                # (3) length of the appended block
+                bad = []
+                for S_, f in paths:
+                    if not f["padded"]:
+                        continue
+                    try:
+                        n = rows_of(f["pad"])
+                        want = S_.E("int(np.ceil(SR__ / freq[freq > 0].min()))").subs({"SR__": f["sr"]})
+                        if not n.equals(want):
+                            bad.append({"rows appended": repr(n), "expected": repr(want)})
+                    except Unsupported as e:
+                        bad.append(str(e))
+                ctx.check(not bad, f"{tag}: ceil(sample rate of the filtered signal / lowest non-zero frequency) rows are appended", fn, bad or None)
+            # (4) returned history, time vector, sample rate
+            bad_h, bad_t, bad_sr = [], [], []
+            rows_set = []
+            for S_, f in paths:
+                ret = S_.ret()
+                if not (isinstance(ret, tuple) and len(ret) == 2):
+                    bad_h.append(f"return value {ret!r}"[:200])
+                    continue
+                try:
+                    ent = _resp_entries(S_, ret[1])
+                except Unsupported as e:
+                    bad_h.append(str(e))
+                    continue
+                start = rows_of(f["prim"]) if time == "residual" else F.const(0)
+                r = _alloc_rows(ent.get("hist", [None])[0])
+                if r is None or not r.equals(f["rows"] - start):
+                    bad_h.append({"allocated": repr(ent.get("hist", [None])[0])[:200], "rows of the window": repr(f["rows"] - start)})
+                else:
+                    rows_set.append(r)
+                t = _arange(ent.get("t", [None])[-1], f["sr"])
+                if t is None or not (t[0].equals(start) and t[1].equals(f["rows"])):
+                    bad_t.append({"t": repr(ent.get("t", [None])[-1])[:200], "expected": f"arange({start!r}, {f['rows']!r}) / {f['sr']!r}"})
+                srv = ent.get("sr", [None])[-1]
+                if srv is None or is_unknown(srv) or isinstance(srv, (tuple, DictValue)) or not need(srv).equals(f["sr"]):
+                    bad_sr.append({"resp['sr']": repr(srv), "sample rate of the coefficients": repr(f["sr"])})
+            ctx.check(not bad_h, f"{tag}: resp['hist'] has as many rows as the evaluated window of the filter output", fn, bad_h or None)
+            ctx.check(not bad_t, f"{tag}: resp['t'] spans the evaluated window at the sample rate of the filter", fn, bad_t or None)
+            ctx.check(not bad_sr, f"{tag}: resp['sr'] is the sample rate the coefficients were computed for", fn, bad_sr or None)
+            if rolloff == "none":
+                serial_rows[time] = rows_set
+    # parallel path: the shared history buffer has the rows of the serial one
+    for time in TIMES:
+        tag = f"srs (time={time}, parallel)"
+        if time not in serial_rows:
+            continue
+        try:
+            got = []
+            for S_, _recs in srs_regime(ctx, time=time, rolloff="none", getresp=True, parallel="yes"):
+                for name, pos, _kw, _node in S_.ev.calls:
+                    if pos and isinstance(pos[0], tuple) and len(pos[0]) == 3 and not any(is_unknown(z) or isinstance(z, tuple) for z in pos[0]):
+                        got.append(pos[0][0])
+            ok = bool(got) and all(any(g.equals(r) for r in serial_rows[time]) for g in got) and all(any(g.equals(r) for g in got) for r in serial_rows[time])
+            ctx.check(ok, f"{tag}: the shared history buffer has the rows of the serial resp['hist']", fn,
+                      None if ok else {"parallel": [repr(g) for g in got], "serial": [repr(r) for r in serial_rows[time]]})
+        except Unsupported as e:
+            ctx.error(f"{tag}: evaluation", fn, str(e))
+    # frame of the appended cycle
+    for st in STYPES:
+        for ic in ICS:
+            tag = f"srs (stype={st}, ic={ic}, time=total)"
+            try:
+                bad, n = [], 0
+                for S_, recs in srs_regime(ctx, st=st, ic=ic, time="total"):
+                    f = _facts(ctx, S_, recs)
+                    if not f["padded"]:
+                        continue
+                    n += 1
+                    z = [a for a in (F.Rat(F.Poly.atom(a)) for a in f["pad"].n.atoms()) if (unfn(a) or ("",))[0] == "zeros"]
+                    if len(z) != 1:
+                        bad.append({"appended": repr(f["pad"])})
+                        continue
+                    removed = (F.sym("sig") - f["prim"]) if ic == "steady" else F.const(0)
+                    if not (f["pad"] + removed).equals(z[0]):
+                        bad.append({"appended": repr(f["pad"]), "offset removed from the signal": repr(removed)})
+                if not n:
+                    ctx.error(f"{tag}: no path appends a cycle", fn)
+                    continue
+                ctx.check(not bad, f"{tag}: the appended cycle is zero base acceleration "
+                          + ("in the frame of the original signal (zeros minus the offset ic='steady' removed)" if ic == "steady" else "(plain zeros)"), fn, bad or None)
+            except Unsupported as e:
+                ctx.error(f"{tag}: evaluation", fn, str(e))
+
+
+# ---------------------------------------------------------------------------------------------------------------- vrs
+def _vrs_fixed(fn_given, params):
+    def fixed(test, ev):
+        v = ev.ev(test)
+        if v is None or is_unknown(v) or isinstance(v, (tuple, DictValue)):
+            return None
+        u = unfn(v)
+        if u and u[0] in ("cmp:Eq", "cmp:NotEq", "cmp:Is", "cmp:IsNot") and len(u[1]) == 2 and not any(isinstance(z, str) for z in u[1]):
+            a, b = u[1]
+            eq = u[0] in ("cmp:Eq", "cmp:Is")
+            for x, y in ((a, b), (b, a)):
+                ux = unfn(x)
+                if ux and ux[0] == "attr:ndim" and y.is_const() and y.const_value() == 1:
+                    return not eq                                   # 2-D PSD input
+                if sym_of(y) == "None" and sym_of(x) == "Fn":
+                    return (not fn_given) == eq
+                if sym_of(y) == "None" and sym_of(x) in params:
+                    return not eq
+        return None
+    return fixed
+
+
+def _psd_hook(records):
+    """the PSD interpolated on the integration grid, `psd.interp(spec, grid, linear)`: one symbol, arguments recorded"""
+    def hook(node, ev):
+        d = dotted(node.func) or ""
+        if d.split(".")[-1] != "interp" or len(node.args) + len(node.keywords) < 2:
+            return NotImplemented
+        pos = [ev.ev(a) for a in node.args]
+        kw = {k.arg: ev.ev(k.value) for k in node.keywords if k.arg is not None}
+        grid = pos[1] if len(pos) > 1 else kw.get("freq")
+        s = F.sym("<PSD%d>" % len(records))
+        records.append({"sym": s, "grid": grid, "node": node})
+        return s
+    return hook
+
+
+def _indep(w, name):
+    """w does not depend on the symbol `name` (decided by substitution and cross-multiplied equality)"""
+    return w.subs({name: F.sym(name + "#")}).equals(w)
+
+
+def r6_vrs(ctx):
+    """vrs() on values, for Fn given / None x getresp: every stored spectrum value is sqrt(sum_i |T(freq_i / Fn[k])|^2 PSD(freq_i) w_i) with T the
+    base-drive transmissibility, PSD interpolated on the same grid and w a weight vector that depends on neither Q nor the oscillator nor the PSD -
+    the same one with and without getresp; resp['psd'] is |T|^2 PSD; the Miles estimate squared is (pi/2) fn Q PSD(fn)"""
+    fn = ctx.src.func(SRS, "vrs")
+    a = fn.args
+    params = [x.arg for x in a.posonlyargs + a.args + a.kwonlyargs]
+    for k in ("spec", "freq", "Q", "linear", "Fn", "getmiles", "getresp"):
+        if k not in params:
+            raise AnchorError(f"vrs: parameter `{k}` of the documented signature")
+    Q = F.sym("Q")
+    zeta = 1 / (2 * Q)
+    weights = {}
+    nm = 0
+
+    def T2(G, fk):
+        p = G / fk
+        return (1 + (2 * zeta * p) ** 2) / ((1 - p * p) ** 2 + (2 * zeta * p) ** 2)
+
+    for fn_given in (True, False):
+        FnV = F.sym("Fn") if fn_given else F.sym("freq")
+        for gr in (True, False):
+            tag = f"vrs (Fn {'given' if fn_given else 'None'}, getresp={gr})"
+            recs = []
+            try:
+                paths = []
+                for _dec, S_ in explore(ctx, fn, SRS, fixed=_vrs_fixed(fn_given, set(params)), env={"getresp": TRUE if gr else FALSE, "getmiles": TRUE},
+                                        hooks=(_psd_hook(recs),)):
+                    paths.append((S_, list(recs)))
+                    del recs[:]
+            except Unsupported as e:
+                ctx.error(f"{tag}: evaluation", fn, str(e))
+                continue
+            for S_, prec in paths:
+                ret = S_.ret()
+                want_len = 3 if gr else 2
+                if not (isinstance(ret, tuple) and len(ret) == want_len):
+                    ctx.error(f"{tag}: return value", S_.ret_node(), repr(ret)[:300])
+                    continue
+                if len(prec) != 1 or prec[0]["grid"] is None or is_unknown(prec[0]["grid"]) or isinstance(prec[0]["grid"], (tuple, DictValue)):
+                    ctx.error(f"{tag}: expected one interpolation of the PSD specification onto the integration grid", fn, len(prec))
+                    continue
+                P, G = prec[0]["sym"], prec[0]["grid"]
+                pname = sym_of(P)
+                zname = sym_of(ret[0]) if not is_unknown(ret[0]) and not isinstance(ret[0], (tuple, DictValue)) else None
+                cells = S_.cells(zname) if zname else []
+                if not cells:
+                    ctx.error(f"{tag}: the returned spectrum is not an array filled in the function", S_.ret_node(), repr(ret[0])[:200])
+                    continue
+                for _nm, ix, val, stn in cells:
+                    if is_unknown(val) or is_unknown(ix) or isinstance(val, (tuple, DictValue)):
+                        ctx.error(f"{tag}: stored spectrum value", stn, repr(val)[:300])
+                        continue
+                    u = unfn(need(val) * need(val))
+                    if not (u and u[0] == "red:sum" and not isinstance(u[1][0], str)):
+                        ctx.error(f"{tag}: stored spectrum value is not sqrt(sum(...))", stn, repr(val)[:300])
+                        continue
+                    integrand = u[1][0]
+                    kname = sym_of(need(ix))
+                    w = integrand / (T2(G, F.fn("idx", FnV, need(ix))) * P)
+                    ok = not w.is_zero() and _indep(w, "Q") and _indep(w, pname) and (kname is None or _indep(w, kname))
+                    ctx.check(ok, f"{tag}: integrand equals |T|^2 * PSD * w with T the base-drive transmissibility "
+                                  "(1+(2 zeta p)^2)/((1-p^2)^2+(2 zeta p)^2), p = grid/Fn[k], PSD on the same grid, w independent of Q, of the oscillator and of the PSD", stn,
+                              None if ok else {"integrand": repr(integrand)[:500]})
+                    if ok:
+                        weights.setdefault(fn_given, []).append((gr, w, stn))
+                if gr:
+                    # resp['psd'][k] = |T|^2 PSD
+                    try:
+                        ent = _resp_entries(S_, ret[2])
+                    except Unsupported as e:
+                        ctx.error(f"{tag}: resp", S_.ret_node(), str(e))
+                        ent = {}
+                    pv = ent.get("psd", [None])[-1]
+                    bname = sym_of(pv) if pv is not None and not is_unknown(pv) and not isinstance(pv, (tuple, DictValue)) else None
+                    pc = S_.cells(bname) if bname else []
+                    if not pc:
+                        ctx.error(f"{tag}: resp['psd'] is not an array filled in the function", S_.ret_node(), repr(pv)[:200])
+                    for _nm, ix, val, stn in pc:
+                        ok = not is_unknown(val) and not is_unknown(ix) and not isinstance(val, (tuple, DictValue)) \
+                            and need(val).equals(T2(G, F.fn("idx", FnV, need(ix))) * P)
+                        ctx.check(ok, f"{tag}: resp['psd'][k] is |T(grid / Fn[k])|^2 * PSD", stn, None if ok else repr(val)[:400])
+                # Miles
+                zm = ret[1]
+                if is_unknown(zm) or isinstance(zm, (tuple, DictValue)):
+                    ctx.error(f"{tag}: Miles estimate", S_.ret_node(), repr(zm)[:300])
+                    continue
+                r = need(zm) * need(zm) / (F.sym("pi") / 2 * Q * FnV)
+                u = unfn(r)
+                ok, det = False, repr(r)[:400]
+                if not fn_given:
+                    ok = r.equals(P) and need(G).equals(FnV)              # the PSD interpolated to freq (= Fn)
+                elif u and u[0] == "apply" and len(u[1]) >= 2 and not isinstance(u[1][1], str):
+                    # an interpolant of (grid, PSD on the grid) evaluated at Fn
+                    iu = unfn(u[1][0])
+                    ipos = [z for z in iu[1] if not isinstance(z, str) and not (unfn(z) or ("",))[0].startswith("kw:")] if iu else []
+                    if len(ipos) >= 2:
+                        ok = u[1][1].equals(FnV) and ipos[0].equals(need(G)) and ipos[1].equals(P)
+                        if not ok:
+                            det = {"interpolant of": repr(ipos[1])[:200], "on": repr(ipos[0])[:200], "evaluated at": repr(u[1][1])[:200]}
+                    else:
+                        ctx.error(f"{tag}: PSD(fn) of the Miles estimate is obtained in a way this rule does not model", S_.ret_node(), repr(r)[:300])
+                        continue
+                elif u and u[0].startswith("call:") and _indep(r, "Q"):
+                    ctx.error(f"{tag}: PSD(fn) of the Miles estimate is obtained in a way this rule does not model", S_.ret_node(), repr(r)[:300])
+                    continue
+                ctx.check(ok, f"{tag}: z_miles^2 == (pi/2) fn Q PSD(fn)", S_.ret_node(), None if ok else det)
+                nm += 1
+    for fn_given, lst in weights.items():
+        a_ = [w for g, w, _s in lst if g]
+        b_ = [w for g, w, _s in lst if not g]
+        if a_ and b_:
+            ok = all(x.equals(b_[0]) for x in a_ + b_)
+            ctx.check(ok, f"vrs (Fn {'given' if fn_given else 'None'}): getresp and non-getresp loops integrate with the same weights", lst[-1][2],
+                      None if ok else {"getresp": repr(a_[0])[:300], "no getresp": repr(b_[0])[:300]})
+    if nm < 4:
+        raise AnchorError("vrs: expected a Miles estimate in each of the four regimes")
+
+
+# ---------------------------------------------------------------------------------------------------------------- eqsine
+def r7_eqsine(ctx):
+    """srs(): with eqsine the returned spectrum - and the returned response history when there is one - is the one computed without it divided
+    by Q, exactly once; without it nothing depends on Q but the filter coefficients.  Decided by evaluating srs() in both regimes and
+    comparing the returned values and what was stored into them."""
+    fn = ctx.src.func(SRS, "srs")
+    n = 0
+    Q = F.sym("Q")
+    for par in ("no", "yes"):
+        for gr in (True, False):
+            tag = f"srs (getresp={gr}, parallel={par})"
+            try:
+                out = {}
+                for eq in (True, False):
+                    res = list(srs_regime(ctx, getresp=gr, eqsine=eq, parallel=par))
+                    if len(res) != 1:
+                        raise Unsupported(f"{len(res)} paths")
+                    out[eq] = res[0][0]
+            except Unsupported as e:
+                ctx.error(f"{tag}: evaluation", fn, str(e))
+                continue
+            rT, rF = out[True].ret(), out[False].ret()
+            if gr:
+                if not (isinstance(rT, tuple) and isinstance(rF, tuple) and len(rT) == 2 and len(rF) == 2):
+                    ctx.error(f"{tag}: return value", fn, {"eqsine": repr(rT)[:200], "plain": repr(rF)[:200]})
+                    continue
+                sT, sF = rT[0], rF[0]
+            else:
+                sT, sF = rT, rF
+            if any(v is None or is_unknown(v) or isinstance(v, (tuple, DictValue)) for v in (sT, sF)):
+                ctx.error(f"{tag}: returned spectrum", fn, {"eqsine": repr(sT)[:200], "plain": repr(sF)[:200]})
+                continue
+            # what was stored into the spectrum array must not depend on eqsine
+            def stored(S_):
+                return sorted(repr(c[2]) for c in list(S_.ev.cells) + list(S_.ev.deep)
+                              if c[2] is not None and not is_unknown(c[2]) and not isinstance(c[2], (tuple, DictValue)) and "lfilt" in X.fn_names(c[2]))
+            ok = need(sT).equals(need(sF) / Q) and "Q" not in X.sym_names(need(sF)) and stored(out[True]) == stored(out[False])
+            ctx.check(ok, f"{tag}: the returned spectrum is divided by Q once when eqsine is set and not at all otherwise", out[True].ret_node(),
+                      None if ok else {"eqsine": repr(sT)[:300], "plain": repr(sF)[:300]})
+            n += 1
+            if gr:
+                cnt = {}
+                for eq in (True, False):
+                    S_ = out[eq]
+                    rv = S_.ret()[1]
+                    name = sym_of(rv) if not is_unknown(rv) and not isinstance(rv, (tuple, DictValue)) else None
+                    k = 0
+                    other = []
+                    for _nm, ix, val, _st in (S_.cells(name) if name else []):
+                        if is_unknown(ix) or str_of(ix) != "hist" or is_unknown(val) or isinstance(val, (tuple, DictValue)):
+                            continue
+                        cur = F.fn("idx", F.sym(name), need(ix))
+                        if need(val).equals(cur / Q):
+                            k += 1
+                        elif X.depends(need(val), "Q"):
+                            other.append(repr(val)[:200])
+                    cnt[eq] = (k, other)
+                ok = cnt[True] == (1, []) and cnt[False] == (0, [])
+                ctx.check(ok, f"{tag}: the returned response history is divided by Q once when eqsine is set and not at all otherwise", out[True].ret_node(),
+                          None if ok else {"eqsine": cnt[True], "plain": cnt[False]})
+    ctx.check(n >= 4, f"eqsine rule bound to {n} (getresp, parallel) regimes", fn, nontrivial=False)
+
+
+# ---------------------------------------------------------------------------------------------------------------- peak selectors
 def r8_peak_selectors(ctx):
     """The reported spectrum value is the stated peak statistic of the response history over the time axis (axis 0; one column per signal):
-    'abs' max |x|, 'pos' |max x|, 'poss' max x, 'neg' |min x|, 'negs' min x, 'rms' sqrt(mean x^2).  Each selector function is evaluated on
-    symbols and compared with that definition (reductions in method or function form, mean or sum / number of time samples), and the
-    name -> function table of _process_inputs is checked against the same definitions."""
-    from .sem import Sem
-    RED = {"max": "max", "amax": "max", "min": "min", "amin": "min", "mean": "mean", "sum": "sum", "nanmax": "nanmax", "nanmin": "nanmin"}
-
+    'abs' max |x|, 'pos' |max x|, 'poss' max x, 'neg' |min x|, 'negs' min x, 'rms' sqrt(mean x^2).  The function `_process_inputs` selects for
+    each name is found by evaluating `_process_inputs` with that name; it is then evaluated on symbols (helpers and other selectors followed) and
+    compared with the definition (reductions in method or function form, mean or sum / number of time samples)."""
     def call(node, ev):
         d = dotted(node.func) or ""
-        # reductions: x.max(axis=0) / np.max(x, axis=0) / np.amax(x, 0)
-        if isinstance(node.func, ast.Attribute) and node.func.attr in RED:
-            base = node.func.value
-            if d.startswith(("np.", "numpy.")) and node.args:
-                arr, rest = node.args[0], node.args[1:]
-            else:
-                arr, rest = base, node.args
-            a = ev.ev(arr)
-            ax = next((k.value for k in node.keywords if k.arg == "axis"), rest[0] if rest else None)
-            if is_unknown(a) or isinstance(a, tuple):
-                return NotImplemented
-            axv = ev.ev(ax) if ax is not None else F.sym("None")
-            if is_unknown(axv):
-                return NotImplemented
-            extra = [k.arg for k in node.keywords if k.arg not in ("axis",)]
-            if extra:
-                return NotImplemented
-            return F.fn("red:" + RED[node.func.attr], need(a), need(axv))
-        if d in ("len",) and node.args:
-            a = ev.ev(node.args[0])
-            return F.fn("nrows", need(a)) if not is_unknown(a) else NotImplemented
         if d == "max" and len(node.args) == 2 and isinstance(node.args[1], ast.Constant) and node.args[1].value == 1:
             return ev.ev(node.args[0])          # max(count, 1): the count itself for a non-empty history
-        return NotImplemented
-
-    def sub(node, ev):
-        # resp.shape[0] is the number of time samples
-        if isinstance(node.value, ast.Attribute) and node.value.attr == "shape" and isinstance(node.slice, ast.Constant) and node.slice.value == 0:
-            a = ev.ev(node.value.value)
-            return F.fn("nrows", need(a)) if not is_unknown(a) else NotImplemented
         return NotImplemented
 
     x = F.sym("resp")
     zero = F.const(0)
     mx, mn = F.fn("red:max", x, zero), F.fn("red:min", x, zero)
+    nrows = F.fn("rows", x)
     want = {
         "abs": [F.fn("red:max", F.fn("abs", x), zero)],
         "pos": [F.fn("abs", mx)],
         "poss": [mx],
         "neg": [F.fn("abs", mn)],
         "negs": [mn],
-        "rms": [F.sqrt(F.fn("red:mean", x * x, zero)), F.sqrt(F.fn("red:sum", x * x, zero) / F.fn("nrows", x))],
+        "rms": [F.sqrt(F.fn("red:mean", x * x, zero)), F.sqrt(F.fn("red:sum", x * x, zero) / nrows)],
     }
     words = {"abs": "max |x|", "pos": "|max x|", "poss": "max x", "neg": "|min x|", "negs": "min x", "rms": "sqrt(mean x^2) over the time samples"}
     pi = ctx.src.func(SRS, "_process_inputs")
-    table = None
-    for st in walk_no_nested(pi):
-        if isinstance(st, ast.Assign) and isinstance(st.value, ast.Dict) and st.value.keys and all(isinstance(k, ast.Constant) for k in st.value.keys):
-            keys = [k.value for k in st.value.keys]
-            if set(keys) >= {"abs", "rms"}:
-                table = (st, dict(zip(keys, st.value.values)))
-    if table is None:
-        raise AnchorError("_process_inputs: peak-name table")
-    st, tab = table
-    ctx.check(set(tab) == set(want), "_process_inputs: the peak table offers exactly abs, pos, poss, neg, negs, rms", st, sorted(tab))
+    pp = [a.arg for a in pi.args.posonlyargs + pi.args.args]
+    if len(pp) != 4:
+        raise AnchorError("_process_inputs(stype, peak, rolloff, time)")
+    sel = {}
     for key in sorted(want):
-        node = tab.get(key)
-        if node is None:
+        name = _peak_function(ctx, key)
+        if name is None:
+            ctx.fail(f"peak '{key}': _process_inputs selects a module-level selector function", pi, repr(ctx.__dict__["_c03_peak"][key][1]))
             continue
-        if not isinstance(node, ast.Name):
-            ctx.error(f"peak '{key}': selector", st, ast.unparse(node))
-            continue
-        fn = ctx.src.func(SRS, node.id)
-        params = [a.arg for a in fn.args.args]
+        sel[key] = name
+    ctx.check(len(sel) == len(want), "_process_inputs: each of abs, pos, poss, neg, negs, rms selects a function", pi, sorted(sel))
+    for key in sorted(sel):
+        fn = ctx.src.func(SRS, sel[key])
+        params = [a.arg for a in fn.args.posonlyargs + fn.args.args]
         if len(params) != 1:
             ctx.fail(f"peak '{key}': selector takes the response history only", fn, params)
             continue
-        S = Sem(ctx, fn, call=call, subscript=sub, env={params[0]: x, params[0] + ".size": F.fn("nrows", x) * F.fn("ncols", x)})
-        got = S.ret()
-        if got is None or is_unknown(got) or isinstance(got, tuple):
-            ctx.error(f"peak '{key}': value of {node.id}", fn, repr(got))
-            continue
-        unmodelled = sorted({F.atom_desc(a)[1] for a in _all_atoms(need(got)) if F.atom_desc(a)[0] == "fn" and F.atom_desc(a)[1].startswith(("call:", "attr:", "idx"))})
-        if unmodelled and not any(need(got).equals(w) for w in want[key]):
-            ctx.error(f"peak '{key}': {node.id} uses operations this rule does not model", fn, unmodelled)
+        S_ = Sem3(ctx, fn, SRS, hooks=(call,), env={params[0]: x, params[0] + ".size": nrows * F.fn("dim", x, F.const(1))})
+        got = S_.ret()
+        if got is None or is_unknown(got) or isinstance(got, (tuple, DictValue)):
+            ctx.error(f"peak '{key}': value of {sel[key]}", fn, repr(got))
             continue
         ok = any(need(got).equals(w) for w in want[key])
-        ctx.check(ok, f"peak '{key}' -> {node.id}: returns {words[key]} along the time axis (axis 0), one value per signal", fn,
+        unmodelled = sorted(n for n in X.fn_names(need(got)) if n.startswith(("call:", "attr:", "idx", "apply")))
+        if unmodelled and not ok:
+            ctx.error(f"peak '{key}': {sel[key]} uses operations this rule does not model", fn, unmodelled)
+            continue
+        ctx.check(ok, f"peak '{key}' -> {sel[key]}: returns {words[key]} along the time axis (axis 0), one value per signal", fn,
                   None if ok else {"returns": repr(got), "definition": repr(want[key][0])})
 
 
 RULES = [
     ("C03-R1", r1_filters, 36),
     ("C03-R2", r2_zero_limits, 12),
-    ("C03-R3", r3_dc_gain, 20),
-    ("C03-R4", r4_windows, 8),
-    ("C03-R6", r6_vrs, 5),
-    ("C03-R7", r7_eqsine, 4),
+    ("C03-R3", r3_dc_gain, 30),
+    ("C03-R4", r4_windows, 60),
+    ("C03-R6", r6_vrs, 10),
+    ("C03-R7", r7_eqsine, 5),
     ("C03-R8", r8_peak_selectors, 7),
 ]
 
 LEVEL = "other"
-EXPLANATION = ("Static, for all Q>0.5, dT, wn: each of the six SRS coefficient functions is extracted from the AST and its "
+EXPLANATION = ("Static, for all Q>0.5, dT, wn: each of the six SRS coefficient functions is evaluated on symbols (helpers followed) and its "
                "second-order section is compared, as exact symbolic expressions, with the ramp-invariant filter derived inside "
                "the checker from the oscillator ODE (homogeneous solution -> particular solution for a linear force -> z-transform "
-               "of the one-step recurrence); wn==0 branches are the wn->0 limits; steady-state add-back equals DC gain times the "
-               "removed offset at all three code sites; vrs integrand/Miles closed forms; eqsine division. Does not decide lfilter, "
-               "resampling, window bookkeeping on data or peak statistics.")
+               "of the one-step recurrence); wn==0 branches are the wn->0 limits; srs() itself is evaluated on symbols once per regime of its "
+               "options: steady-state add-back equals DC gain times the removed offset at the serial site and in every worker, window start / "
+               "history length / time vector / appended cycle per time option and rolloff regime, eqsine division; vrs integrand, response PSD "
+               "and Miles closed forms; peak selectors. Does not decide lfilter, resampling quality, vrs quadrature weights.")
 MANIFEST = {
     "text": "Partial claim decided statically for all parameters: (R1) every SRS coefficient function's general branch equals, "
             "as an exact symbolic identity, the ramp-invariant digital filter derived in the checker from the damped-oscillator ODE; "
             "(R2) each wn==0 branch is the wn->0 limit of its general branch; (R3) the steady-state initial-condition add-back in "
-            "srs() and both parallel workers equals the filter's DC gain times the removed offset, and is absent exactly for the "
-            "zero-gain types; (R6) both vrs loops integrate the closed-form transmissibility and Miles' expression; (R7) eqsine = /Q on "
-            "every return path; (R8) each peak selector (abs, pos, poss, neg, negs, rms) returns its stated statistic along the time axis and the name table maps "
-            "each name to the function with that value. Not decided: scipy.signal.lfilter realising the recursion, resampling/rolloff quality, vrs quadrature weights.",
+            "srs() and in the worker of each parallel regime equals the DC gain of the filter actually applied times the removed offset, and is "
+            "absent exactly for the zero-gain types; (R4) for every time option x rolloff regime the evaluated window starts at row 0 / at the first "
+            "appended row of the signal that is filtered, resp['hist'], resp['t'], resp['sr'] describe exactly that window, one cycle "
+            "ceil(sr/min f) of zeros - in the frame of the original signal for ic='steady' - is appended for total / residual; "
+            "(R6) both vrs loops integrate the closed-form transmissibility times the PSD on the same grid with the same weights, resp['psd'] and Miles' "
+            "expression; (R7) eqsine = /Q exactly once on the returned spectrum and history; (R8) each peak selector (abs, pos, poss, neg, negs, rms) "
+            "returns its stated statistic along the time axis and `_process_inputs` maps each name to the function with that value. "
+            "Not decided: scipy.signal.lfilter realising the recursion, resampling/rolloff quality, vrs quadrature weights.",
     "note": "Trusted: CPython ast, verifier/e2_formula.py exact algebra (self-checks its reference homogeneous solution against the ODE on every run). "
             "Assumes scipy.signal.lfilter implements the difference equation of (b, a).",
-    "technique": "static formula extraction + exact symbolic normal forms compared with an ODE-derived reference filter (z-transform of the exact one-step recurrence)",
+    "technique": "symbolic evaluation of the anchored functions per option regime (helpers inlined, constants folded, undecided tests explored) + exact "
+                 "symbolic normal forms compared with an ODE-derived reference filter (z-transform of the exact one-step recurrence)",
 }
